@@ -57,6 +57,13 @@ func (t *Trace) EmitEv(e Ev) {
 	t.w.WriteByte('\n')
 }
 
+// Sync flushes buffered events to the file (so that they survive a crash of the process).
+func (t *Trace) Sync() {
+	t.mu.Lock()
+	defer t.mu.Unlock()
+	t.w.Flush()
+}
+
 func (t *Trace) Close() {
 	t.mu.Lock()
 	defer t.mu.Unlock()
